@@ -12,8 +12,8 @@
    the repaired code; the old refutation witnesses are kept at the end as regression Examples about the code
    before those commits ([cfg_before]); the former statement file is history/Props_C12_before_fixes.v. *)
 From GVL Require Import NList.
-From GVG Require Import Consts.
-From GV_clientsm Require Import Model Proofs Proofs2.
+From GVG Require Import Consts Kern.
+From GV_clientsm Require Import Model Proofs Proofs2 Bridge.
 Open Scope N_scope.
 
 (* An accepted SETUP response agrees with the request: same lower transport, compatible delivery, same
@@ -98,6 +98,41 @@ Proof. intros. apply call_keeps_ok; [apply cfg_now_repaired|assumption]. Qed.
 Print Assumptions C12_clientsm_every_death_releases.
 
 (* ---------- non-vacuity ---------- *)
+
+(* ---- BRIDGE (tools/go2coq) ----
+   Integer kernels of client.go TRANSLATED from the Go source on this run are the formulas of the model: any_port IS the
+   translated isAnyPort; in_use IS "some set-up media satisfies the translated test of isChannelPairInUse"; the
+   redirect countdown of do_describe ([nred_of count] = clientMaxRedirects - redirectCount, starting from count 0) is
+   refused exactly when the translated redirectCount >= clientMaxRedirects holds and is decremented exactly when the
+   translated argument redirectCount+1 is passed on; the interleaved-pair test of validate is the translated
+   (a + 1) != b; the server-port test of validate's UDP branch is the translated
+   (state == PreRecord || !AnyPortEnable) && !serverPortsValid, for any injective numbering of the states. *)
+Theorem C12_clientsm_kernels_are_the_code :
+  (forall p, k_csm_is_any_port (Z.of_N p) = any_port p) /\
+  (forall ms ch, chanN ch -> Forall (fun cm => chanN (smchan cm)) ms ->
+     in_use ms ch = existsb (fun cm => k_csm_chan_in_use (Z.of_N (smchan cm)) (Z.of_N ch)) ms) /\
+  (forall count, (0 <= count <= Z.of_N csm_max_redirects)%Z ->
+     k_csm_too_many_redirects count (Z.of_N csm_max_redirects) = match nred_of count with O => true | S _ => false end /\
+     nred_of (k_csm_next_redirect count) = pred (nred_of count)) /\
+  (forall p creds back anyport resolve mclisten, xf11 (cfg_now p creds back anyport resolve mclisten) = Some (nred_of 0)) /\
+  (forall a b, chanN a -> k_csm_il_not_consec (Z.of_N a) (Z.of_N b) = negb (a + 1 =? b)) /\
+  (forall (num : cstate -> Z) cfg s t, (forall a b, num a = num b -> a = b) ->
+     ((is_prerecord s || negb (canyport cfg)) &&
+      negb (match tsp t with Some (a, b) => negb (any_port a) && negb (any_port b) | None => false end)) =
+     k_csm_need_server_ports (num (st_state s)) (num SPreRecord) (canyport cfg)
+       (match tsp t with Some (a, b) => negb (k_csm_is_any_port (Z.of_N a)) && negb (k_csm_is_any_port (Z.of_N b)) | None => false end)).
+Proof. exact clientsm_kernels_are_the_code. Qed.
+Print Assumptions C12_clientsm_kernels_are_the_code.
+
+(* the translated kernels compute: ports 0 and 1 are "any", 2 is not; the 10th redirect is followed, the 11th is not *)
+Example C12_example_kernels :
+  k_csm_is_any_port 0 = true /\ k_csm_is_any_port 1 = true /\ k_csm_is_any_port 2 = false /\
+  k_csm_chan_in_use 0 1 = true /\ k_csm_chan_in_use 0 2 = false /\
+  k_csm_too_many_redirects 9 (Z.of_N csm_max_redirects) = false /\ k_csm_too_many_redirects 10 (Z.of_N csm_max_redirects) = true /\
+  k_csm_next_redirect 9 = 10%Z /\ k_csm_il_not_consec 2 3 = false /\ k_csm_il_not_consec 2 2 = true /\
+  k_csm_need_server_ports 3 3 true false = true /\ k_csm_need_server_ports 1 3 true false = false /\
+  k_csm_need_server_ports 1 3 false false = true /\ k_csm_need_server_ports 3 3 false true = false.
+Proof. vm_compute. repeat split. Qed.
 
 (* the bounds in numbers, for the constant read from client.go today *)
 Example C12_example_bounds : forall c,
